@@ -13,6 +13,7 @@
 -/
 import MptModel.Lemmas.Ident
 import MptModel.Lemmas.IdentLocate
+import MptModel.Lemmas.IdentRefine
 import MptModel.Spec.Ident
 namespace Mpt.C16
 open Mpt.Ident
@@ -192,6 +193,107 @@ example : (do
     let b ← create 24
     let (b1, h2, _) ← set b h1 1 (some ([0x61] ++ [0])) 1
     locate [a1, b1, a1] h2 0 2 (List.replicate 30 0x61)).toOption = some (some 2) := by decide
+
+
+/- ------------------------------------------------------------------------------------------------
+   refinement of the value-level collection (Spec/Ident.lean: `Vals`, `setVal`, `cmpEq`, `nameOf`) — the spec
+   column of the driver is computed with these very functions
+   ------------------------------------------------------------------------------------------------ -/
+
+theorem denotes_view {id : Ident} {h : Heap} {k : Nat} {v : Val} (hd : Denotes id h k v) :
+    view id h = .ok (v.charset, v.stored) := by
+  simp [view, hd.read, hd.cs, bind, Except.bind, pure, Except.pure]
+
+/-- **set, every operand shape**: `len` bytes of a buffer that may be longer (a slice), the C string in the buffer
+    (`len = -1`), or `len` cleared bytes (zero pointer): the identifier then reads back as the value `setVal` gives
+    for that operand, or — exactly when `setVal` refuses (length limit, negative length without a name) — the call is
+    refused and nothing changes. -/
+theorem set_stores_value {id : Ident} {h : Heap} {k : Nat} (hw : Wf id h k) (ho : Own id h k) (name : Option (List Byte))
+    (len : Int) (hv : ∀ b, name = some b → len ≤ b.length) :
+    match (nameOf name len).bind setVal with
+    | some v => ∃ id' h', set id h k (name.map (· ++ [0])) len = .ok (id', h', true) ∧
+        view id' h' = .ok (v.charset, v.stored) ∧ Wf id' h' k ∧ Own id' h' k ∧ Frame h h' k
+    | none => set id h k (name.map (· ++ [0])) len = .ok (id, h, false) := by
+  have := set_value hw ho name len hv
+  cases hb : (nameOf name len).bind setVal with
+  | none => rw [hb] at this; exact this
+  | some v =>
+    rw [hb] at this
+    obtain ⟨id', h', hs, hd, hf⟩ := this
+    exact ⟨id', h', hs, denotes_view hd, hd.wf, hd.own, hf⟩
+
+/-- a slice of a longer buffer, and a C string with text behind its terminator -/
+example : (do
+    let a ← create 16
+    let (a1, h1, _) ← set a ⟨[]⟩ 0 (some ([0x61, 0x62, 0x63, 0x64, 0x65] ++ [0])) 3
+    let (a2, h2, _) ← set a1 h1 0 (some ([0x61, 0x62, 0, 0x64, 0x65] ++ [0])) (-1)
+    pure ((view a1 h1).toOption, (view a2 h2).toOption)).toOption =
+    some (some (1, [0x61, 0x62, 0x63, 0]), some (1, [0x61, 0x62, 0])) := by decide
+
+/-- **compare, every operand shape**: for an identifier that denotes the value `v` (text or not), the comparison with
+    `len` bytes of a buffer that may be longer, or with the C string in it (`len < 0`), is zero exactly when `v` is
+    that text. -/
+theorem compare_iff_equal_value {id : Ident} {h : Heap} {k : Nat} {v : Val} (hd : Denotes id h k v) (b : List Byte) (len : Int)
+    (hl : len ≤ b.length) :
+    ∃ r, compare id h (some (b ++ [0])) len = .ok r ∧
+      (r = 0 ↔ cmpEq v (if len < 0 then cstr b else b.take len.toNat) = true) :=
+  compare_value hd b len hl
+
+example : (do
+    let a ← create 16
+    let (a1, h1, _) ← set a ⟨[]⟩ 0 (some ([0x61, 0x62] ++ [0])) 2
+    pure ((compare a1 h1 (some ([0x61, 0x62, 0x63, 0x64] ++ [0])) 2).toOption, (compare a1 h1 (some ([0x61, 0x62, 0, 0x64] ++ [0])) (-1)).toOption,
+          (compare a1 h1 (some ([0x61, 0x62, 0x63] ++ [0])) (-1)).toOption)).toOption = some (some 0, some 0, some (-16)) := by decide
+
+/-- the name test of `mpt_node_next` for every C string operand, and the walk over a node list: the node found is the
+    first one from the current node on whose name is that C string -/
+theorem next_match_value {id : Ident} {h : Heap} {k : Nat} {v : Val} (hd : Denotes id h k v) (b : List Byte) :
+    nextMatch id h (some (b ++ [0])) = .ok (cmpEq v (cstr b)) :=
+  nextMatch_value hd b
+
+theorem next_finds_equal_name {nodes : List (Ident × Nat × Val)} {h : Heap}
+    (hd : ∀ n, n ∈ nodes → Denotes n.1 h n.2.1 n.2.2) (b : List Byte) (i : Nat) :
+    ∃ r, nodeNext h (some (b ++ [0])) (nodes.map (·.1)) i = .ok r ∧
+      walkS (cstr b) 1 (nodes.map (·.2.2)) 1 (i : Int) = r.map Int.ofNat :=
+  nodeNext_spec hd b i
+
+example : (do
+    let a ← create 24
+    let (a1, h1, _) ← set a ⟨[]⟩ 0 (some ([0x61] ++ [0])) 1
+    let b ← create 24
+    let (b1, h2, _) ← set b h1 1 (some ([0x62] ++ [0])) 1
+    nodeNext h2 (some ([0x62, 0, 0x63] ++ [0])) [a1, b1, a1] 0).toOption = some (some 1) := by decide
+
+/-- **one step refines the value level**: from a system that satisfies the invariant and agrees with a value-level
+    collection `sp` (every identifier denotes the value `sp` holds for its slot, ended slots are ended), every
+    operation runs without fault and the system agrees with `sp.step` afterwards. -/
+theorem step_refines_values {s : Sys} {sp : Vals} (hi : SysInv s) (ha : Agree s sp) (op : Op) (hv : op.valid) :
+    ∃ s' r, s.step op = .ok (s', r) ∧ SysInv s' ∧ Agree s' (sp.step op.abs) :=
+  step_refines hi ha op hv
+
+/-- **histories refine the value level**: after every history of set / copy / end-of-life / construct operations
+    (any storage sizes >= 16, any operand shapes, in any order, switching between inline and allocated content in
+    either direction) every identifier reads back exactly the value the property assigns to its slot — the value last
+    set or copied into it — and the slots that ended are ended. -/
+theorem history_refines_values (ops : List Op) (hv : ∀ op, op ∈ ops → op.valid) :
+    ∃ s, Sys.empty.run ops = .ok s ∧ SysInv s ∧ s.ids.length = (Vals.run [] (ops.map Op.abs)).length ∧
+      ∀ k, (s.get k = none ∧ Vals.slot (Vals.run [] (ops.map Op.abs)) k = none) ∨
+        ∃ id v, s.get k = some id ∧ Vals.slot (Vals.run [] (ops.map Op.abs)) k = some v ∧
+          view id s.heap = .ok (v.charset, v.stored) := by
+  obtain ⟨s, hr, hi, ha⟩ := run_refines SysInv.empty Agree.empty ops hv
+  refine ⟨s, hr, hi, ha.len, ?_⟩
+  intro k
+  rcases ha.slot k with h1 | ⟨id, v, h1, h2, h3⟩
+  · exact Or.inl h1
+  · exact Or.inr ⟨id, v, h1, h2, denotes_view h3⟩
+
+/-- long -> short by copy, then the source is overwritten and ended: the copy keeps the value -/
+example : Vals.run [] ([Op.new 16, .new 32, .set 0 (some (List.replicate 30 0x61)) 30, .set 1 (some [0x62, 0x62, 0x63]) 2,
+      .copy 0 (some 1), .set 1 none 3, .free 1].map Op.abs) = [some ⟨1, [0x62, 0x62]⟩, none] := by decide
+example : (do
+    let s ← Sys.empty.run [.new 16, .new 32, .set 0 (some (List.replicate 30 0x61)) 30, .set 1 (some [0x62, 0x62, 0x63]) 2,
+      .copy 0 (some 1), .set 1 none 3, .free 1]
+    pure ((s.get 0).map fun id => (view id s.heap).toOption)).toOption = some (some (some (1, [0x62, 0x62, 0]))) := by decide
 
 /- ------------------------------------------------------------------------------------------------
    heap_discipline
